@@ -224,6 +224,10 @@ pub struct World {
     pub stats: Stats,
     pub pos_digests: Vec<u64>,
     info: Option<Info>,
+    /// The run reached a position the library's contract does not allow to be used any
+    /// further (e.g. the mover's king is attacked) while the property that would report it is
+    /// not being judged: the run stops here, quietly.
+    pub poisoned: bool,
 }
 
 pub fn digest_key(k: &PosKey) -> u64 {
@@ -356,6 +360,7 @@ impl World {
             stats: Stats::default(),
             pos_digests: Vec::new(),
             info: None,
+            poisoned: false,
         }
     }
 
@@ -383,7 +388,39 @@ impl World {
     /// First check of a run: the start position itself.
     pub fn check_start(&mut self) -> Result<(), Violation> {
         self.expect_spy(&[SpyEv::Push(self.rc.keys[0].clone())])?;
+        if self.on(C14) {
+            self.check_filter_table()?;
+        }
         self.check_invariants()
+    }
+
+    /// `Outcome::passes` over its whole finite domain against the three classes of C14
+    /// (a table lookup, done once per run because it is cheap).
+    fn check_filter_table(&mut self) -> Result<(), Violation> {
+        use crate::lib_api::{DRAW_REASONS, WIN_REASONS};
+        let mut all: Vec<Outcome> = DRAW_REASONS.iter().map(|r| Outcome::Draw(*r)).collect();
+        for side in [Color::White, Color::Black] {
+            for r in WIN_REASONS {
+                all.push(Outcome::Win { side, reason: r });
+            }
+        }
+        for f in FILTERS {
+            for o in &all {
+                if let Some(w) = class_passes(o, f) {
+                    if o.passes(f) != w {
+                        return Err(self.fail(
+                            C14,
+                            "filter-table",
+                            format!("{:?}.passes({:?}) = {}, but by its class it must be {}", o, f, o.passes(f), w),
+                        ));
+                    }
+                    if o.is_force() != class_passes(o, OutcomeFilter::Force).unwrap() {
+                        return Err(self.fail(C14, "filter-table", format!("{:?}.is_force() = {}", o, o.is_force())));
+                    }
+                }
+            }
+        }
+        Ok(())
     }
 
     // -------------------------------------------------------------- dispatcher
@@ -439,11 +476,19 @@ impl World {
 
     /// Properties (in order of preference) a panic escaping the given operation is
     /// reported under.
-    pub fn panic_props(op: &Op) -> &'static [u32] {
+    pub fn panic_props(op: &Op, loc: &str) -> &'static [u32] {
+        // where did it blow up: inside the make/un-make primitives or elsewhere?
+        let in_primitives = loc.contains("moves/base.rs");
         match op {
             Op::Push(_) | Op::PushUciList(_) => &[C02, C13],
             Op::BoardMake(_) => &[C02],
-            Op::Pop => &[C13, C04],
+            Op::Pop => {
+                if in_primitives {
+                    &[C13, C04]
+                } else {
+                    &[C13]
+                }
+            }
             Op::SetAuto(_) => &[C14],
             Op::RebuildMoves | Op::Fork | Op::EqTwin(_) => &[C13],
             Op::RebuildUci | Op::Read(_) => &[C17],
@@ -579,6 +624,13 @@ impl World {
         }
 
         self.check_valid(&last, "chain.last()")?;
+        if !pos_of(&last).plausible() {
+            // C02 would have reported it just above; under any other property the board must
+            // simply not be used any more
+            self.stats.hit("note.run-stopped-at-invalid-position");
+            self.poisoned = true;
+            return Ok(());
+        }
         self.record_position(&last, &full)?;
 
         if self.on(C14) {
